@@ -32,8 +32,8 @@ CHECKS['C15'] = {
              'prefix of the fault-free output, stops within one pull/one write attempt, IO-handling error and never garbage or a raw UnicodeDecodeError, every opened handle closed, '
              'writer call protocol. Scenarios are sampled; fault points within a scenario are complete (strided for long outputs).'),
     'design_ref': 'DESIGN.md 3.4',
-    'note': ('Trusted: the fault-free run of the same code as prefix reference; CPython io stack; simulated sinks/sources. Not covered: a real OS pipe, interpreter-exit flushing, '
-             'interactive mode. "Promptly" = at most one further pull and one further write attempt after the first failed record write.'),
+    'note': ('Trusted: the fault-free run of the same code as prefix reference; CPython io stack; simulated sinks/sources. One real OS pipe (reader gone before the run) is used for the exit-status clause; a reader disappearing mid-output, shutdown GC order and '
+             'interactive mode are not covered. "Promptly" = at most one further pull and one further write attempt after the first failed record write.'),
     'technique': 'deterministic simulation with fault injection: enumerated sink-break / refusal / bad-byte / error points per seeded scenario, history oracles',
 }
 
